@@ -17,7 +17,19 @@ from typing import Any
 from harness import common
 from harness.common import REPO
 
-TRANP_ROOT = os.path.join(REPO, 'rogw', 'tranp') + os.sep
+
+
+def tranp_root() -> str:
+	"""Directory of the imported `rogw.tranp` package (= <common.REPO>/rogw/tranp; taken from the package itself so that a
+	symlinked or mutated worktree given through VERIF_REPO yields the same relative frame names)."""
+	global _TRANP_ROOT
+	if _TRANP_ROOT is None:
+		import rogw.tranp.errors as m  # type: ignore
+		_TRANP_ROOT = os.path.dirname(os.path.abspath(m.__file__)) + os.sep
+	return _TRANP_ROOT
+
+
+_TRANP_ROOT: str | None = None
 WALL_CAP_S = 10.0
 
 
@@ -78,12 +90,13 @@ def is_app_error(e: BaseException) -> bool:
 def tranp_frames(e: BaseException) -> list[str]:
 	"""`relative/file.py:qualname` of every traceback frame inside rogw/tranp, outermost first (no line numbers: keys stay stable)."""
 	out = []
+	root = tranp_root()
 	tb = e.__traceback__
 	while tb is not None:
 		code = tb.tb_frame.f_code
 		fn = code.co_filename
-		if fn.startswith(TRANP_ROOT):
-			out.append(f'{fn[len(TRANP_ROOT):]}:{code.co_qualname}')
+		if fn.startswith(root):
+			out.append(f'{fn[len(root):]}:{code.co_qualname}')
 		tb = tb.tb_next
 	return out
 
@@ -137,12 +150,15 @@ class Outcome:
 class Pipeline:
 	"""One long-lived real tranp App per mode; every input is loaded as a fresh module and transpiled."""
 
+	REBUILD_EVERY = {'in-memory': 2000, 'on-disk': 400}
+
 	def __init__(self, mode: str, base_tmp: str, wall_cap: float = WALL_CAP_S) -> None:
 		assert mode in ('in-memory', 'on-disk')
 		self.mode = mode
 		self.base_tmp = base_tmp
 		self.wall_cap = wall_cap
 		self.n = 0
+		self.runs = 0
 		self.rebuilds = 0
 		self._build()
 
@@ -213,6 +229,11 @@ class Pipeline:
 	def run(self, data: str | bytes) -> Outcome:
 		"""Load + transpile one input under the wall cap; render the error the way bin/transpile.py does (cwd = project)."""
 		from rogw.tranp.view.error_render import ErrorRender
+		self.runs += 1
+		if self.runs % self.REBUILD_EVERY[self.mode] == 0:
+			# every on-disk input stays loaded as a module of the App (Modules, SymbolDB): bound the memory by starting over at
+			# fixed counts (deterministic; outcomes do not depend on it — each key is re-confirmed on a fresh App anyway)
+			self.rebuild()
 		old_handler = signal.signal(signal.SIGALRM, _on_alarm)
 		old_cwd = os.getcwd()
 		if self.mode == 'on-disk':
